@@ -28,7 +28,7 @@ for mid in ids:
         shutil.copy(f"{WT}/minter-connector/go.sum", "/tmp/seedmf/go.sum")
         mf = "-modfile=/tmp/seedmf/go.mod"
     shutil.copy(f"/verif/seeded/{mid}/demo_test.go", f"{WT}/{pkg}/zz_seed_demo_test.go")
-    run = f"go test {mf} -vet=off -count=1 -timeout 300s -run 'ZZMut|TestMut|Mut' {rel}"
+    run = f"go test {mf} -vet=off -count=1 -timeout 300s -run 'ZZMut|TestMut|Mut|TestDemoC|TestC06Batch' {rel}"
     wo = "pass" if sh(run, cwd=f"{WT}/{mod}").returncode == 0 else "fail"
     ap = sh(f"git apply /verif/seeded/{mid}/patch.diff", cwd=WT).returncode == 0
     w = su = "skip"
